@@ -5,12 +5,12 @@ from props import wsmodel as W
 
 ID = "C02"
 PROPERTIES_V = "theories/Properties/C02X.v"
-EXTRA_PROPERTIES_V = ["theories/Properties/C02W.v"]   # two-workspace world: cross-workspace copies, frame across workspaces
+EXTRA_PROPERTIES_V = ["theories/Properties/C02W.v", "theories/Properties/C02T.v"]   # two-workspace world: cross-workspace copies, frame across workspaces
 CHUNK = 8  # histories are heavy terms (a dump of tree and file after every op): small case files, evaluated in parallel
-CASE_IMPORTS = "From GV Require Import Prelude.Base Model.WsX Model.WsXCheck."
+CASE_IMPORTS = "From GV Require Import Prelude.Base Model.WsX Model.WsXCheck.\nFrom GV Require Model.WsT Model.WsTCheck."  # typed terms are fully qualified
 ALLOWED_AXIOMS: list = []
 REFUTED = ["C02_valid_refuted (witness ops_orphan: removal through the parent + close leaves an orphan; open known finding)", "C02_close_valid_refuted", "C02_valid_upto_refuted", "C02_step_refuted (witness ops_forgot: a re-open forgets a pending object/data identifier whose node stays)"]
-PARTIAL = ["C02_valid_upto_orphans (for ALL fresh histories the file represents the tree up to pending/forgotten orphan nodes of dead objects/data)", "C02_close_valid_partial (Valid at close when only dead groups are pending and no earlier re-open forgot an orphan)", "C02_close_valid_nolinger", "C02_step_partial", "C02_valid_upto_partial"]
+PARTIAL = ["C02_valid_upto_orphans (for ALL fresh histories the file represents the tree up to pending/forgotten orphan nodes of dead objects/data)", "C02_close_valid_partial (Valid at close when only dead groups are pending and no earlier re-open forgot an orphan)", "C02_close_valid_nolinger", "C02_step_partial", "C02_valid_upto_partial", "C02T_run / C02T_type_links_shared (typed layer Model/WsT.v: for ALL histories without entity-node re-use every live entity's Type link is the node stored under its type identifier, no type identifier twice per class container; caller-supplied type identifiers live, swept or stale included)", "C02T_step", "C02T_link_view"]
 LEVEL_TEXT = ("Unbounded Coq theorems: Valid f := the file is exactly the encoding of a finite tree with unique identifiers hanging from the Root link (every entity under its own id, every "
               "child entry a hard link to the flat node, one parent each, all reachable, no id twice). For ALL histories without stale re-creation the file is valid up to the orphan nodes of "
               "dead entities (C02_valid_upto_orphans) and valid at close when no object/data orphan lingers (C02_close_valid_*); the full statement is refuted (orphan after removal through the "
@@ -44,10 +44,19 @@ def generate(rng, tier):
     cases += [{"ext": True, "ops": wsext.gen_ext_history(rng.fork(6000 + i), rng.range(20, 36))} for i in range(m)]
     k = 20 if tier == "quick" else 500
     cases += [{"w": True, "ops": W.gen_history_w(rng.fork(9500 + i), rng.range(14, 24))} for i in range(k)]
+    # typed layer (Model/WsT.v): entity types under caller-supplied identifiers (shared / swept / stale), compared with the model
+    from props import wstypes
+
+    kt = 30 if tier == "quick" else 700
+    cases += [{"t": True, "ops": wstypes.gen_history_t(rng.fork(13500 + i), rng.range(12, 24))} for i in range(kt)]
     return cases
 
 
 def drive_one(case, work):
+    if case.get("t"):
+        from props import wstypes
+
+        return wstypes.run_history_t(case["ops"], work, "c02t")
     if case.get("ext"):
         from props import wsext
 
@@ -58,6 +67,10 @@ def drive_one(case, work):
 
 
 def case_term(case, obs):
+    if case.get("t"):
+        from props import wstypes
+
+        return wstypes.history_case_term_t(case["ops"], obs["steps"])
     if case.get("ext"):
         return None
     if case.get("w"):
@@ -197,6 +210,10 @@ def _key_of_path(path):
 def oracle(case, obs):
     if "crash" in obs:
         return [{"key": "driver-crash", "what": obs["crash"][:300]}]
+    if case.get("t"):
+        from props import wstypes
+
+        return wstypes.oracle_c02_t(case["ops"], obs["steps"])
     if case.get("ext"):
         return oracle_ext(case, obs)
     if case.get("w"):
@@ -226,6 +243,8 @@ def oracle(case, obs):
 
 
 def nontrivial(case, obs):
+    if case.get("t"):
+        return any(o["op"] in ("rm_ws", "rm_parent", "types") for o in case["ops"]) and any(o["op"] == "create" and o["k"] == "D" for o in case["ops"])
     if case.get("w"):
         return any(o["op"] == "copy_x" for o in case["ops"])
     return any(o["op"] in ("rm_ws", "rm_parent", "move", "rm_children", "copy", "pg") for o in case["ops"])
